@@ -222,6 +222,7 @@ theorem step_frame (s : Sys F) (e : Ev) (h : notHk e = true) :
   | crit d => exact pw_refl _
   | failNext cid => exact pw_refl _
   | failBind cid => exact pw_refl _
+  | stamp idx weak ld ccb cct => exact pw_stampLink (R := LksFrame) LksFrame.rfl' (fun _ _ _ _ _ => Or.inl rfl) _ _ _ _ _ _
 
 /-- The state after a list of events (outputs dropped). -/
 def runEvs (s : Sys F) (evs : List Ev) : Sys F := evs.foldl (fun s e => (step s e).1) s
@@ -458,6 +459,7 @@ theorem step_id (s : Sys F) (e : Ev) : PW IdFrame s.links (step s e).1.links := 
   | crit d => exact id_refl _
   | failNext cid => exact id_refl _
   | failBind cid => exact id_refl _
+  | stamp idx weak ld ccb cct => exact pw_stampLink (R := IdFrame) IdFrame.rfl' (fun _ _ _ _ _ => rfl) _ _ _ _ _ _
 
 theorem runEvs_id (s : Sys F) (evs : List Ev) : PW IdFrame s.links (runEvs s evs).links := by
   unfold runEvs
